@@ -150,6 +150,8 @@ thread_local! {
     static QUIET: std::cell::Cell<bool> = const { std::cell::Cell::new(false) };
 }
 
+static LAST_PANIC_ANY: Mutex<Option<(String, String)>> = Mutex::new(None);
+
 pub fn install_panic_hook() {
     let default = std::panic::take_hook();
     std::panic::set_hook(Box::new(move |info| {
@@ -162,7 +164,12 @@ pub fn install_panic_hook() {
             "<non-string panic payload>".to_string()
         };
         let text = format!("panicked at {loc}: {msg}");
-        let quiet = QUIET.with(|q| q.get());
+        let quiet = QUIET.with(|q| q.get()) || std::thread::current().name().is_none();
+        // fallback for panics on pool worker threads (rayon re-raises them on the caller's thread
+        // without running the hook again): remembered process-wide, keyed by the message
+        if let Ok(mut g) = LAST_PANIC_ANY.lock() {
+            *g = Some((msg.clone(), text.clone()));
+        }
         LAST_PANIC.with(|p| *p.borrow_mut() = Some(text));
         if !quiet {
             default(info);
@@ -178,7 +185,19 @@ pub fn catch<R>(f: impl FnOnce() -> R) -> Result<R, String> {
     QUIET.with(|q| q.set(prev));
     match r {
         Ok(v) => Ok(v),
-        Err(_) => Err(LAST_PANIC.with(|p| p.borrow_mut().take()).unwrap_or_else(|| "panic (no message captured)".into())),
+        Err(payload) => Err(LAST_PANIC.with(|p| p.borrow_mut().take()).unwrap_or_else(|| {
+            let msg = if let Some(s) = payload.downcast_ref::<&str>() {
+                s.to_string()
+            } else if let Some(s) = payload.downcast_ref::<String>() {
+                s.clone()
+            } else {
+                "<non-string panic payload>".to_string()
+            };
+            match LAST_PANIC_ANY.lock().ok().and_then(|g| g.clone()) {
+                Some((m, text)) if m == msg => format!("{text} (on a pool worker thread)"),
+                _ => format!("panicked on a pool worker thread: {msg}"),
+            }
+        })),
     }
 }
 
@@ -740,6 +759,11 @@ pub fn boxed<S: Strategy + 'static>(s: S) -> BoxedStrategy<S::Value> {
 /// overflow checks and debug assertions on, what a debug build of a user's program does).
 /// The child writes evidence/<id>.checked.json; its verdict is folded into the parent's.
 pub fn run_checked_profile(id: &str, tier: Tier, seed: u64, extra: &mut BTreeMap<String, Value>) -> Result<(), (Fail, Value)> {
+    run_checked_profile_n(id, tier, seed, None, extra)
+}
+
+/// like run_checked_profile with an explicit number of generated cases for the child
+pub fn run_checked_profile_n(id: &str, tier: Tier, seed: u64, cases: Option<usize>, extra: &mut BTreeMap<String, Value>) -> Result<(), (Fail, Value)> {
     let bin = match std::env::var("VPCHECK_CHECKED_BIN") {
         Ok(b) if Path::new(&b).exists() => b,
         _ => {
@@ -747,10 +771,12 @@ pub fn run_checked_profile(id: &str, tier: Tier, seed: u64, extra: &mut BTreeMap
             return Ok(());
         }
     };
-    let outp = std::process::Command::new(&bin)
-        .arg(id)
-        .arg("--tier")
-        .arg(tier.name())
+    let mut cmd = std::process::Command::new(&bin);
+    cmd.arg(id).arg("--tier").arg(tier.name());
+    if let Some(n) = cases {
+        cmd.arg("--cases").arg(n.to_string());
+    }
+    let outp = cmd
         .env("VERIF_SEED", seed.to_string())
         .env("VPCHECK_CHILD", "1")
         .env("VPCHECK_EVIDENCE_SUFFIX", ".checked")
